@@ -577,6 +577,19 @@ func buildC12(e *Env) (*c12Engine, *instr.Report, error) {
 		return nil, nil, Troublef("BUILD-TROUBLE instrumenter: %v", err)
 	}
 	bin, err := e.BuildHarnessMod("irepo", "./harness/schedsim", "schedsim", "-race")
+	if err != nil && rep.ChanBrackets > 0 && instr.Hoist {
+		// the copy does not build; if that is the hoisting of receives, a copy instrumented without it does
+		e.Logf("C12: the instrumented copy does not build (%s); instrumenting again without hoisted receives", firstLine(err.Error()))
+		instr.Hoist = false
+		os.RemoveAll(idir)
+		if idir, err = e.CopyRepoAs("irepo"); err != nil {
+			return nil, nil, err
+		}
+		if rep, err = instr.Library(idir); err != nil {
+			return nil, nil, Troublef("BUILD-TROUBLE instrumenter: %v", err)
+		}
+		bin, err = e.BuildHarnessMod("irepo", "./harness/schedsim", "schedsim", "-race")
+	}
 	if err != nil {
 		return nil, nil, err
 	}
